@@ -235,8 +235,6 @@ _ADDED = {
     "C04": " An already-seen key is dropped silently only while flushing merges or under FirstWins; the live duplicate-key error is located at the key's use-site read before it is captured.",
     "C11": " The per-document RESET rule of the enforcer is part of this check (shared with C07).",
 }
-for _k, _v in _ADDED.items():
-    CLAIMED[_k] = dict(CLAIMED[_k], level=CLAIMED[_k]["level"] + _v)
 
 NOT_APPLICABLE = {("C%02d" % i): _NB for i in range(1, 21) if ("C%02d" % i) not in CLAIMED}
 
@@ -435,3 +433,7 @@ CLAIMED["C01"] = dict(
     technique="static analysis: panic-site census over MIR assert / call terminators with guard-dominance discharge, invariant rules, loop-progress (SCC) and recursion-cycle census")
 
 NOT_APPLICABLE = {("C%02d" % i): _NB for i in range(1, 21) if ("C%02d" % i) not in CLAIMED}
+
+# applied last: several CLAIMED entries are (re)assigned after the _ADDED table above
+for _k, _v in _ADDED.items():
+    CLAIMED[_k] = dict(CLAIMED[_k], level=CLAIMED[_k]["level"] + _v)
